@@ -304,7 +304,7 @@ def key_dispatch(ctx, rep, rule):
                 inst = [b for b in body.calls() if b.idx in blocks and (callee_path(b.term) or "").endswith("::" + meth)]
                 oks_ = [b_ for b_ in flow.blocks_assigning_return(body, lambda rv: rv["k"] == "agg" and rv.get("vname") == "Ok") if b_ in blocks]
                 cut_ = {(b.idx, s_) for b in inst for s_ in b.succs()}
-                pth = cells.path_within(body, blocks, oks_, cut_) if oks_ else None
+                pth = (sorted(cells.variant_reach(body, cut=frozenset(cut_), within=blocks) & set(oks_)) or None) if oks_ else None
                 rep.check(rule, key + "|always installs", pth is None, "every Ok return follows " + meth,
                           "with an authentication algorithm configured as_key_type can return Ok without installing the key (blocks %s): the "
                           "all-zero default key stays in use" % pth, body.loc(), obligation=True)
@@ -980,6 +980,9 @@ def fresh_buffers(ctx, rep, rule):
                 brk = [tg for tg, lb in blk.edges() if lb == ("case", 1)]
                 if brk and sd[0].idx not in cfg.reachable(b, brk):
                     okk = True
+            # ... and the outcome is inspected before sending: every way to the send crosses a success edge
+            okedges = {(blk.idx, tg) for blk, term in sw for tg, lb in blk.edges() if lb == ("case", 0)}
+            okk = okk and bool(okedges) and cfg.must_pass(b, [0], [sd[0].idx], okedges)
             rep.check(rule, "_send_inner|send-only-after-success", okk, "nothing is sent when serialisation fails",
                       "a datagram can be sent although push_pdu failed (e.g. OutOfBuffer)", b.loc(sd[0].term["line"]), obligation=True)
 
@@ -1370,6 +1373,73 @@ def msg_flags(ctx, rep, rule):
     rep.check(rule, "SnmpV3Message::push_ber|msgFlags", good is not None, "auth | priv << 1 | reportable << 2 for all eight combinations",
               "the msgFlags octet is not auth|priv|reportable for every security level: (auth, priv, report) -> octets pushed %s" %
               sorted(wrong.items()), body.loc(), obligation=True)
+
+
+def msg_flags_decode(ctx, rep, rule):
+    """The decoder's side of msgFlags: the three flag fields of the SnmpV3Message built by try_from are, for every value of
+    the flags octet, bit 0 / bit 1 / bit 2 of that octet - the table SnmpV3Message::push_ber writes (msg_flags).  Decided by
+    folding the three field terms over all 256 octet values; the octet is the one non-constant leaf they share."""
+    facts = ctx.facts
+    body = None
+    for b in facts.body_list:
+        if b.path.startswith("<snmp::msg::v3::msg::SnmpV3Message<") and b.path.endswith("::try_from"):
+            body = b
+    if body is None:
+        rep.missing(rule, "SnmpV3Message::try_from")
+        return
+    rep.note_analysed("functions", [body.path])
+    prov = flow.Prov(body)
+    aggs = []
+    for blk in body.live_blocks():
+        for st_ in blk.stmts:
+            if st_["k"] == "assign" and st_["rv"]["k"] == "agg":
+                t = prov.rvalue(st_["rv"])
+                if t[0] == "agg" and (t[1] or "").endswith("SnmpV3Message") and len(t) > 3:
+                    aggs.append((blk, t))
+    if not aggs:
+        rep.missing(rule, "SnmpV3Message::try_from: the message aggregate")
+        return
+    def leaves(t, out):
+        if t[0] == "const":
+            return
+        if t[0] == "bin":
+            leaves(t[2], out)
+            leaves(t[3], out)
+        elif t[0] == "un":
+            leaves(t[2], out)
+        elif t[0] == "cast":
+            leaves(t[1], out)
+        else:
+            out.add(t)
+    bits = {"flag_auth": 1, "flag_priv": 2, "flag_report": 4}
+    for blk, t in aggs:
+        fields = {f: ft for f, ft in t[3] if f in bits}
+        if set(fields) != set(bits):
+            rep.inconclusive(rule, "SnmpV3Message::try_from|msgFlags", "flag fields not all set in the aggregate (%s)" % sorted(fields), body.loc())
+            continue
+        lv = set()
+        for ft in fields.values():
+            leaves(ft, lv)
+        if len(lv) != 1:
+            rep.inconclusive(rule, "SnmpV3Message::try_from|msgFlags", "the flag fields are not functions of one octet (%d leaves): not decided" % len(lv), body.loc())
+            continue
+        leaf = next(iter(lv))
+        bad = {}
+        und = False
+        for f, ft in fields.items():
+            for v in range(256):
+                r = cells.eval_term(ft, lambda x, v=v: v if x == leaf else None)
+                if not isinstance(r, int):
+                    und = True
+                    break
+                if bool(r) != bool(v & bits[f]):
+                    bad.setdefault(f, v)
+        if und:
+            rep.inconclusive(rule, "SnmpV3Message::try_from|msgFlags", "a flag field does not fold to a value for a given octet", body.loc())
+            continue
+        rep.check(rule, "SnmpV3Message::try_from|msgFlags", not bad, "flag_auth/flag_priv/flag_report = bits 0/1/2 of the flags octet, for all 256 octets",
+                  "decoded flags do not mirror the encoder's msgFlags table: %s" %
+                  ", ".join("%s differs from bit %d for octet 0x%02x" % (f, bits[f].bit_length() - 1, v) for f, v in sorted(bad.items())), body.loc(), obligation=True)
 
 
 def hand_lengths(ctx, rep, rule):
